@@ -143,6 +143,33 @@ def run(ck, prog):
               msg="Server::set_file_content stores the text under an id not derived from the document's path")
     overlay_before_reread(ck, prog, cg, sb, overlay_writers, read_impls, "R12.3")
 
+    # ---- R12.5: an open document stays open --------------------------------------------------------------------
+    # the server handles no didClose: every document the editor has sent stays "open" for the whole session, so nothing
+    # may remove an entry of the open-document table (a clean-up of documents that left the workspace makes a still-open
+    # document fall back to its on-disk text when an include brings it back)
+    ck.rule("R12.5", "entries of the open-document table are never removed")
+    ofields = set()
+    for rc_ in read_impls:
+        rb_ = prog.body(rc_)
+        for t_ in brackets.option_tests(rb_, prog):
+            if re.search(r"HashMap::<[^>]*>::get$|BTreeMap::<[^>]*>::get$", t_["src_callee"] or ""):
+                for x in prov.origins(rb_, rb_.term(t_["src_bb"])["args"][0]):
+                    if x[0] == "arg" and x[2]:
+                        ofields.add(x[2][-1])
+    removers = []
+    for pth_, b_ in prog.bodies.items():
+        if b_.crate != "lsp.rlib":
+            continue
+        for i, t in b_.calls():
+            c = Body.callee(t) or ""
+            if re.search(r"(HashMap|BTreeMap)::<[^>]*>::(remove|remove_entry|clear|retain|drain|extract_if)$", c) and t["args"]:
+                if any((x[0] == "arg" and x[2] and x[2][-1] in ofields) or (x[0] == "call" and len(x) > 3 and x[3] and x[3][-1] in ofields)
+                       for x in prov.origins(b_, t["args"][0])):
+                    removers.append("%s [%s]" % (pth_, b_.where(i)))
+    ck.ob("R12.5", "never-shrinks", bool(ofields) and not removers, "no function of crate lsp removes entries of %s" % sorted(ofields),
+          msg="entries of the open-document table are removed in %s: the server never learns that a document was closed, so "
+              "a document that is still open in the editor is later read from disk" % (removers or "(table not identified)"))
+
     # ---- R12.4: one document, one key ---------------------------------------------------------------------------
     # the open-document table, the file-id tables and the include resolution all key on FilePath: two spellings of one
     # path (`/d/./inc.td`, `/d//inc.td`, `/d/inc.td`) must be one key, which is what PathBuf's component-wise Eq / Hash
